@@ -87,42 +87,57 @@ structure OCP (α : Type) where
 /-- `½·dist²_μ(c + μ⁻¹y, D)` as the code accumulates it: `real_t(0.5) * dist_squared(ζ, D, μ)`. -/
 def penaltyTerm (c : Vec α) (D : Box α) (μ y : Vec α) : α := (1 / 2 : α) * distSqW (zeta c μ y) D μ
 
+/-- `if (nh > 0) { eval_h(t, xk, uk, hk); V += eval_l(t, hk); } else V += eval_l(t, xuk);` -/
+def outStep (P : OCP α) (v : OCPVars) (t : Nat) (s : Vec α × α) : Vec α × α :=
+  if v.nh > 0 then
+    let st1 := setSeg s.1 (v.hkStart t)
+      (P.h t (getSeg s.1 (v.xkStart t) (v.xkLen t)) (getSeg s.1 (v.ukStart t) (v.ukLen t)))
+    (st1, s.2 + P.l t (getSeg st1 (v.hkStart t) (v.hkLen t)))
+  else (s.1, s.2 + P.l t (getSeg s.1 (v.xukStart t) (v.xukLen t)))
+
+/-- `if (nc > 0) { eval_constr(t, xk, ck); V += ½·dist²_μ(ck + μ⁻¹yk, D); }` -/
+def conStep (P : OCP α) (v : OCPVars) (D : Box α) (μ y : Vec α) (t : Nat) (s : Vec α × α) :
+    Vec α × α :=
+  let nc := v.nc
+  if nc > 0 then
+    let st2 := setSeg s.1 (v.ckStart t) (P.c t (getSeg s.1 (v.xkStart t) (v.xkLen t)))
+    (st2, s.2 + penaltyTerm (getSeg st2 (v.ckStart t) (v.ckLen t)) D
+                    (getSeg μ (t * nc) nc) (getSeg y (t * nc) nc))
+  else s
+
+/-- `eval_f(t, xk, uk, vars.xk(storage, t + 1));` -/
+def dynStep (P : OCP α) (v : OCPVars) (t : Nat) (s : Vec α × α) : Vec α × α :=
+  (setSeg s.1 (v.xkStart (t + 1))
+      (P.f t (getSeg s.1 (v.xkStart t) (v.xkLen t)) (getSeg s.1 (v.ukStart t) (v.ukLen t))), s.2)
+
 /-- body of the `for (t = 0; t < N; ++t)` loop; state = (storage, V). -/
 def forwardStage (P : OCP α) (v : OCPVars) (D : Box α) (μ y : Vec α) (s : Vec α × α) (t : Nat) :
     Vec α × α :=
+  dynStep P v t (conStep P v D μ y t (outStep P v t s))
+
+/-- terminal outputs / cost: `eval_h_N`, `eval_l_N`. -/
+def outStepN (P : OCP α) (v : OCPVars) (s : Vec α × α) : Vec α × α :=
+  let N := v.N
+  if v.nh_N > 0 then
+    let st1 := setSeg s.1 (v.hkStart N) (P.hN (getSeg s.1 (v.xkStart N) (v.xkLen N)))
+    (st1, s.2 + P.lN (getSeg st1 (v.hkStart N) (v.hkLen N)))
+  else (s.1, s.2 + P.lN (getSeg s.1 (v.xkStart N) (v.xkLen N)))
+
+/-- terminal constraints: `eval_constr_N`, penalty with `D_N`, multipliers at `N·nc`. -/
+def conStepN (P : OCP α) (v : OCPVars) (DN : Box α) (μ y : Vec α) (s : Vec α × α) : Vec α × α :=
+  let N := v.N
   let nc := v.nc
-  let r1 : Vec α × α :=
-    if v.nh > 0 then
-      let st1 := setSeg s.1 (v.hkStart t)
-        (P.h t (getSeg s.1 (v.xkStart t) (v.xkLen t)) (getSeg s.1 (v.ukStart t) (v.ukLen t)))
-      (st1, s.2 + P.l t (getSeg st1 (v.hkStart t) (v.hkLen t)))
-    else (s.1, s.2 + P.l t (getSeg s.1 (v.xukStart t) (v.xukLen t)))
-  let r2 : Vec α × α :=
-    if nc > 0 then
-      let st2 := setSeg r1.1 (v.ckStart t) (P.c t (getSeg r1.1 (v.xkStart t) (v.xkLen t)))
-      (st2, r1.2 + penaltyTerm (getSeg st2 (v.ckStart t) (v.ckLen t)) D
-                      (getSeg μ (t * nc) nc) (getSeg y (t * nc) nc))
-    else r1
-  (setSeg r2.1 (v.xkStart (t + 1))
-      (P.f t (getSeg r2.1 (v.xkStart t) (v.xkLen t)) (getSeg r2.1 (v.ukStart t) (v.ukLen t))),
-   r2.2)
+  let ncN := v.nc_N
+  if ncN > 0 then
+    let st2 := setSeg s.1 (v.ckStart N) (P.cN (getSeg s.1 (v.xkStart N) (v.xkLen N)))
+    (st2, s.2 + penaltyTerm (getSeg st2 (v.ckStart N) (v.ckLen N)) DN
+                    (getSeg μ (N * nc) ncN) (getSeg y (N * nc) ncN))
+  else s
 
 /-- terminal part of `forward`. -/
 def forwardTerminal (P : OCP α) (v : OCPVars) (DN : Box α) (μ y : Vec α) (s : Vec α × α) :
     Vec α × α :=
-  let N := v.N
-  let nc := v.nc
-  let ncN := v.nc_N
-  let r1 : Vec α × α :=
-    if v.nh_N > 0 then
-      let st1 := setSeg s.1 (v.hkStart N) (P.hN (getSeg s.1 (v.xkStart N) (v.xkLen N)))
-      (st1, s.2 + P.lN (getSeg st1 (v.hkStart N) (v.hkLen N)))
-    else (s.1, s.2 + P.lN (getSeg s.1 (v.xkStart N) (v.xkLen N)))
-  if ncN > 0 then
-    let st2 := setSeg r1.1 (v.ckStart N) (P.cN (getSeg r1.1 (v.xkStart N) (v.xkLen N)))
-    (st2, r1.2 + penaltyTerm (getSeg st2 (v.ckStart N) (v.ckLen N)) DN
-                    (getSeg μ (N * nc) ncN) (getSeg y (N * nc) ncN))
-  else r1
+  conStepN P v DN μ y (outStepN P v s)
 
 /-- `OCPEvaluator::forward(storage, D, D_N, μ, y)`: returns the updated storage and `V`. -/
 def forward (P : OCP α) (v : OCPVars) (D DN : Box α) (μ y : Vec α) (st : Vec α) : Vec α × α :=
@@ -145,24 +160,17 @@ def backwardTerminal (P : OCP α) (v : OCPVars) (DN : Box α) (μ y : Vec α) (s
     vadd lam (P.gradCProdN xN (penGrad (zeta cN μN yN) DN μN))
   else lam
 
-/-- one trip of `for (t = N; t-- > 0;)`: returns `(λ_t, g_t, qr_t)`. -/
-def backwardStage (P : OCP α) (v : OCPVars) (D : Box α) (μ y : Vec α) (st : Vec α) (t : Nat)
-    (lam : Vec α) : Vec α × Vec α × Vec α :=
+/-- the stage gradient `(q_t, r_t)` that `backward` leaves in `qr(t)`:
+    `eval_qr(t, xuk, hk)` and, with stage constraints, `q += ∇c(x)·(μ ∘ (ζ − Π_D ζ))`. -/
+def stageQR (P : OCP α) (v : OCPVars) (D : Box α) (μ y : Vec α) (st : Vec α) (t : Nat) :
+    Vec α × Vec α :=
   let nc := v.nc
-  let nu := v.nu
-  let nx := v.nx
   let hk := getSeg st (v.hkStart t) (v.hkLen t)
   let xuk := getSeg st (v.xukStart t) (v.xukLen t)
   let xk := getSeg st (v.xkStart t) (v.xkLen t)
-  let uk := getSeg st (v.ukStart t) (v.ukLen t)
-  -- (q; r) ← (Aᵀλ; Bᵀλ);  λ ← q, g_t ← r
-  let gf := P.gradFProd t xk uk lam
-  let lam1 := gf.take nx
-  let gt1 := gf.drop (gf.length - nu)
-  -- (q; r) ← ∇h·∇l
   let qr0 := P.qr t xuk hk
-  let qk0 := qr0.take nx
-  let rk := qr0.drop (qr0.length - nu)
+  let qk0 := qr0.take v.nx
+  let rk := qr0.drop (qr0.length - v.nu)
   let qk :=
     if nc > 0 then
       let ck := getSeg st (v.ckStart t) (v.ckLen t)
@@ -170,7 +178,15 @@ def backwardStage (P : OCP α) (v : OCPVars) (D : Box α) (μ y : Vec α) (st : 
       let μk := getSeg μ (t * nc) nc
       vadd qk0 (P.gradCProd t xk (penGrad (zeta ck μk yk) D μk))
     else qk0
-  (vadd lam1 qk, vadd gt1 rk, qk ++ rk)
+  (qk, rk)
+
+/-- one trip of `for (t = N; t-- > 0;)`: returns `(λ_t, g_t, qr_t)`.
+    `(q; r) ← (Aᵀλ; Bᵀλ); λ ← q; g_t ← r; (q; r) ← stage gradient; λ += q; g_t += r`. -/
+def backwardStage (P : OCP α) (v : OCPVars) (D : Box α) (μ y : Vec α) (st : Vec α) (t : Nat)
+    (lam : Vec α) : Vec α × Vec α × Vec α :=
+  let gf := P.gradFProd t (getSeg st (v.xkStart t) (v.xkLen t)) (getSeg st (v.ukStart t) (v.ukLen t)) lam
+  let qr := stageQR P v D μ y st t
+  (vadd (gf.take v.nx) qr.1, vadd (gf.drop (gf.length - v.nu)) qr.2, qr.1 ++ qr.2)
 
 /-- the loop `for (t = N; t-- > 0;)`, accumulating `g_t` and `qr_t` (stage 0 first). -/
 def backwardLoop (P : OCP α) (v : OCPVars) (D : Box α) (μ y : Vec α) (st : Vec α) :
@@ -282,11 +298,14 @@ structure RicStage (α : Type) where
   yvec : Vec α
   gain : Mat α
   e : Vec α
+  /-- the cost-to-go `(P, s)` of stage `i+1` this stage was computed from -/
+  Pn : Mat α
+  sn : Vec α
 
-/-- body of the loop `for (i = N; i-- > 0;)` of `factor_masked`; state `(P, s)`.
+/-- first half of the loop body of `factor_masked` (up to `gain_Ki = −gain_Ki; ei = −ei`).
     `solveM R̄ S̄` / `solveV R̄ t` stand for `R̄LU.solve(·)` of `Eigen::LDLT` / `PartialPivLU`. -/
-def factorStage (nx nu : Nat) (solveM : Mat α → Mat α → Mat α) (solveV : Mat α → Vec α → Vec α)
-    (d : LQRStage α) (i : Nat) (P : Mat α) (s : Vec α) : RicStage α × Mat α × Vec α :=
+def ricRecord (nx nu : Nat) (solveM : Mat α → Mat α → Mat α) (solveV : Mat α → Vec α → Vec α)
+    (d : LQRStage α) (P : Mat α) (s : Vec α) : RicStage α :=
   let nJ := d.J.length
   let nK := d.K.length
   -- R̅ ← R + Bᵀ P B
@@ -308,16 +327,26 @@ def factorStage (nx nu : Nat) (solveM : Mat α → Mat α → Mat α) (solveV : 
   -- K ← −R̅⁻¹S̅, e ← −R̅⁻¹t
   let gain := negM nJ nx (solveM Rbar Sbar)
   let e := negV nJ (solveV Rbar t)
-  let st : RicStage α := ⟨Rbar, Sbar, t, y, gain, e⟩
-  if i > 0 then
-    -- P ← Q + Aᵀ P A + S̅ᵀ K
-    let P1 := addM nx nx (mulTM nx nx nx d.A PA) (mulTM nx nJ nx Sbar gain)
-    -- s ← S̅ᵀ e + Aᵀ y + q + Sᵀ(·,K) u(K)
-    let s1 := addV nx (addV nx (mulTV nx nJ Sbar e) (mulTV nx nx d.A y)) d.q
-    let s2 := addV nx s1
-      (mkV nx fun a => sumTo nK fun k => mget d.S (iget d.K k) a * vget d.u (iget d.K k))
-    (st, addM nx nx P1 d.Q, s2)
-  else (st, P, s)
+  ⟨Rbar, Sbar, t, y, gain, e, P, s⟩
+
+/-- `P ← Q + Aᵀ P A + S̅ᵀ K` (in the order the code accumulates: `AᵀPA`, `+= S̅ᵀK`, then `Q(i)(P)`). -/
+def ricNextP (nx : Nat) (d : LQRStage α) (P : Mat α) (r : RicStage α) : Mat α :=
+  addM nx nx
+    (addM nx nx (mulTM nx nx nx d.A (mulMM nx nx nx P d.A)) (mulTM nx d.J.length nx r.Sbar r.gain))
+    d.Q
+
+/-- `s ← S̅ᵀ e + Aᵀ y + q + Sᵀ(·,K) u(K)` -/
+def ricNextS (nx : Nat) (d : LQRStage α) (r : RicStage α) : Vec α :=
+  addV nx
+    (addV nx (addV nx (mulTV nx d.J.length r.Sbar r.e) (mulTV nx nx d.A r.yvec)) d.q)
+    (mkV nx fun a => sumTo d.K.length fun k => mget d.S (iget d.K k) a * vget d.u (iget d.K k))
+
+/-- body of the loop `for (i = N; i-- > 0;)` of `factor_masked`; state `(P, s)`;
+    the cost-to-go is only updated `if (i > 0)`. -/
+def factorStage (nx nu : Nat) (solveM : Mat α → Mat α → Mat α) (solveV : Mat α → Vec α → Vec α)
+    (d : LQRStage α) (i : Nat) (P : Mat α) (s : Vec α) : RicStage α × Mat α × Vec α :=
+  let r := ricRecord nx nu solveM solveV d P s
+  if i > 0 then (r, ricNextP nx d P r, ricNextS nx d r) else (r, P, s)
 
 /-- the loop of `factor_masked` from stage `i−1` down to `0`; returns the stage records
     (stage 0 first). -/
@@ -333,9 +362,14 @@ def factorMasked (N nx nu : Nat) (solveM : Mat α → Mat α → Mat α) (solveV
     (data : Nat → LQRStage α) (QN : Mat α) (qN : Vec α) : List (RicStage α) :=
   factorLoop nx nu solveM solveV data N (addM nx nx (mkM nx nx fun _ _ => 0) QN) qN []
 
+/-- position of `k` in the index list `J` (searched from position `pos`) -/
+def lookupJ : List Nat → Nat → Nat → Option Nat
+  | [], _, _ => none
+  | j :: js, k, pos => if j = k then some pos else lookupJ js k (pos + 1)
+
 /-- `Δui(Ji) = ei`: overwrite the `J` components of `base`. -/
 def scatter (nu : Nat) (base : Vec α) (J : List Nat) (vals : Vec α) : Vec α :=
-  mkV nu fun k => match J.idxOf? k with
+  mkV nu fun k => match lookupJ J k 0 with
     | some j => vget vals j
     | none => vget base k
 
